@@ -288,10 +288,18 @@ package kafka
 //@   callsite (*batchQueue).Close ensures ptw.$qclosed
 //@   ensures ptw.$qclosed && ptw.currBatch == nil
 // the sender loop of a partition: a dequeued batch (with all its retries) is finished before the next one is taken.
+// writeBatch returns only when the batch is finished: all its attempts were made in place and complete() was called (so a
+// batch that has to be retried is never overtaken by the batches queued behind it, and its waiters are always released).
+//@ func (*writeBatch).complete
+//@   requires b != nil
+//@   option noframe
+//@   modifies b.err, b.$completed, region($closed)
+//@   trust-ensures b.$completed
 //@ func (*partitionWriter).writeBatch
-//@   trusted sends one batch with its retries, completes it and runs its Completion callback (the retry rules are under C01's produce contract)
-//@   modifies ptw.$inflight
-//@   ensures !ptw.$inflight
+//@   option noframe
+//@   modifies heap
+//@   ghostdef ptw.$inflight == false
+//@   ensures batch.$completed && !ptw.$inflight
 //@ func (*partitionWriter).writeBatches
 //@   requires !ptw.$inflight
 //@   option noframe
